@@ -1,5 +1,6 @@
 import Morlock.Proofs.DrawSync
 import Morlock.Proofs.RepExample
+import Morlock.Proofs.ChainArena
 /-!
 # C05 — the game board reports a draw exactly when the history says so
 
@@ -621,5 +622,146 @@ example :
   decide +kernel
 
 end Example
+
+/-! ## 10. games played with generated moves from a well-formed start position: no hypothesis on the history left
+
+The hypotheses `GoodStep` / `GoodHistory` / `FullPlay` of §7 – §8 are *derived* here from the start position
+alone, through the generator's specification (C01) and the position update (C02):
+`WFplay pos turn` (`Morlock/Proofs/ChainWF.lean`) = C01 `WF pos turn` (views agree, at most one king per side,
+`KingHome`, plausible en-passant target) and the side not to move is not in check. It is preserved by every
+generated move that `Position.Move` accepts (`C01.wf_preserved`), and under it every generated move is a
+`FullStep`. `GenPlay pos turn ms` (`Morlock/Proofs/ChainReach.lean`): each move of `ms`, played in turn from
+`pos`, is in the generator output (`pseudoLegalMoves`) of the position where it is played.
+-/
+section Reachable
+open Morlock.Proofs.Chain Morlock.Proofs.Gen
+
+/-- **`pseudo_moveSound`.** On a well-formed position (C01 `WF`) every generated move is `MoveSound`: its type
+resets the half-move clock iff a pawn moves or the destination is occupied, a pawn moves towards its promotion
+rank, only pawns carry a promotion type; and it moves a piece of the side to move (the one it records). -/
+theorem pseudo_moveSound {p : Position} {turn : Color} (hw : WF p turn) :
+    ∀ m ∈ p.pseudoLegalMoves turn,
+      MoveSound p.square m = true ∧ p.square m.from = some (turn, m.piece) :=
+  fun m hm => ⟨Chain.pseudo_moveSound hw m hm, Chain.pseudo_mover hw m hm⟩
+
+/-- **The C05 step conditions hold for every generated move.** In a `WFplay` position every generated move that
+`Position.Move` accepts is a `FullStep` (so a `GoodStep`: views agree, `MetaOK`, moved by the side to move,
+`MoveSound`; and `ClassOK`, no king capture), and the new position satisfies `WFplay` for the other side. -/
+theorem generated_fullStep {p q : Position} {turn : Color} {m : Move} (hw : WFplay p turn)
+    (hm : m ∈ p.pseudoLegalMoves turn) (hq : p.move m = some q) : FullStep p turn m q ∧ WFplay q turn.opp :=
+  step_wfplay hw hm hq
+
+/-- … hence at every position reachable from a `WFplay` position by generated moves (`GenReach`). -/
+theorem reachable_fullStep {p q r : Position} {t t' : Color} {m : Move} (hw : WFplay p t)
+    (hr : GenReach p t q t') (hm : m ∈ q.pseudoLegalMoves t') (hq : q.move m = some r) :
+    FullStep q t' m r ∧ WFplay r t'.opp :=
+  step_wfplay (reach_wfplay hw hr) hm hq
+
+/-- The decidable criteria of §9 / C18 hold outright: `stepCheck` for every generated move of a `WFplay` position. -/
+theorem generated_stepCheck {p : Position} {turn : Color} (hw : WFplay p turn) :
+    ∀ m ∈ p.pseudoLegalMoves turn, stepCheck p turn m = true := stepCheck_of_wfplay hw
+
+/-- On the arena: a generated move on a board whose current position satisfies `WFplay` (for the board's side to
+move) is a `GoodMove` — in particular **the piece moved has the colour of the board's turn**. -/
+theorem generated_goodMove {w : World} {b : Nat} {m : Move} (hwf : WFplay (w.cur b).pos (w.board b).turn)
+    (hm : m ∈ (w.cur b).pos.pseudoLegalMoves (w.board b).turn) : GoodMove w b m :=
+  ⟨⟨_, hwf.1.rep⟩, (((mem_pseudoLegalMoves hwf.1.rep hwf.1.wfb m).mp hm).metaOK_classOK hwf.1.rep hwf.1.wfb).1,
+    ⟨_, Chain.pseudo_mover hwf.1 m hm⟩⟩
+
+/-- **draw_iff, one generated move.** On a board with a good history whose current position satisfies `WFplay`,
+after a generated move the board reports exactly the verdict the history dictates, the history stays good and
+the new current position satisfies `WFplay`. -/
+theorem draw_iff_generated {w w' : World} {z : ZTable} {b : Nat} {m : Move} (hz : z.enpassant 0 = 0)
+    (hw : WFWorld w) (hb : b < w.boards.size) (hg : GoodHistory z w b)
+    (hwf : WFplay (w.cur b).pos (w.board b).turn)
+    (hm : m ∈ (w.cur b).pos.pseudoLegalMoves (w.board b).turn) (h : w.pushMove z b m = some w') :
+    DrawVerdict w' b m ∧ GoodHistory z w' b ∧ WFplay (w'.cur b).pos (w'.board b).turn := by
+  obtain ⟨hfull, hwf'⟩ := push_wfplay hw hb hwf hm h
+  obtain ⟨hv, hg'⟩ := draw_iff_good hz hw hb h hg hfull.good
+  exact ⟨hv, hg', hwf'⟩
+
+/-- **`draw_iff_reachable`: the exact draw verdict for every game played with generated moves from a
+well-formed start position.** Set up a board on `pos` with `turn` to move and half-move clock `np ≥ 0`, where
+`WFplay pos turn`; play generated moves `ms` and then `m` (`GenPlay`), all accepted. Then the board reports
+exactly the verdict the history dictates (`DrawVerdict`: drawn iff the position has occurred at least three times
+on the whole line, or the clock has reached 100, or `M`; with the reasons by precedence; the zero result
+otherwise). No hypothesis on hashes, irreversibility, metadata or the history is left; the invariants
+(`GoodHistory`, `WFplay` of the current position) hold again after the move. -/
+theorem draw_iff_reachable {z : ZTable} (hz : z.enpassant 0 = 0) {w0 w' : World} (hw0 : WFWorld w0)
+    {pos : Position} {turn : Color} (hpos : WFplay pos turn) {np : Int} (hnp : 0 ≤ np) (fm : Int)
+    {ms : List Move} {m : Move} (hgen : GenPlay pos turn (ms ++ [m]))
+    (h : pushAll z (w0.newBoard z pos turn np fm).2 (w0.newBoard z pos turn np fm).1 (ms ++ [m]) = some w') :
+    DrawVerdict w' (w0.newBoard z pos turn np fm).2 m ∧ GoodHistory z w' (w0.newBoard z pos turn np fm).2 ∧
+      WFplay (w'.cur (w0.newBoard z pos turn np fm).2).pos (w'.board (w0.newBoard z pos turn np fm).2).turn := by
+  obtain ⟨hw1, hb1, hg1, hp1, ht1⟩ := newBoard_facts hw0 z pos turn hnp fm
+  rw [pushAll_snoc] at h
+  cases hms : pushAll z (w0.newBoard z pos turn np fm).2 (w0.newBoard z pos turn np fm).1 ms with
+  | none => rw [hms] at h; cases h
+  | some w1 =>
+    rw [hms] at h
+    simp only [Option.bind_some] at h
+    obtain ⟨hw, hb, hg, hwf, hgm⟩ := play_invariant hz ms [m] hw1 hb1 hg1 (by rw [hp1, ht1]; exact hpos)
+      (by rw [hp1, ht1]; exact hgen) hms
+    exact draw_iff_generated hz hw hb hg hwf hgm.1 h
+
+/-- **`game_link` from the start conditions only.** With in addition the castling field holding only the four
+rights bits and exactly two kings on the board (`PosOK`, needed for the material rule and for identifying
+positions), the result the board reports after generated moves `ms ++ [m]` is the reference's verdict
+(`Spec.Game.drawReasons`) on the game "start position `abs pos turn` with clock `n0`, moves `ms ++ [m]`". The
+hypothesis `FullPlay` of `game_link` is discharged by `fullPlay_of_genPlay`. -/
+theorem game_link_reachable {z : ZTable} (hz : z.enpassant 0 = 0) {w0 w' : World} (hw0 : WFWorld w0)
+    {pos : Position} {turn : Color} (hpos : WFplay pos turn) (hc : pos.castling < 16)
+    (hk : kingCount pos.square = 2) (n0 f : Nat) (fm : Int) {ms : List Move} {m : Move}
+    (hgen : GenPlay pos turn (ms ++ [m]))
+    (h : pushAll z (w0.newBoard z pos turn (n0 : Int) fm).2 (w0.newBoard z pos turn (n0 : Int) fm).1 (ms ++ [m])
+      = some w') :
+    SpecVerdict (w'.board (w0.newBoard z pos turn (n0 : Int) fm).2).result
+      (Spec.Game.drawReasons
+        { start := { pos := abs pos turn, halfmove := n0, fullmove := f }, moves := (ms ++ [m]).map absMove }) := by
+  obtain ⟨hw1, hb1, _, hp1, ht1⟩ := newBoard_facts hw0 z pos turn (Int.natCast_nonneg n0) fm
+  have hplay : FullPlay z (w0.newBoard z pos turn (n0 : Int) fm).2 (w0.newBoard z pos turn (n0 : Int) fm).1
+      (ms ++ [m]) :=
+    fullPlay_of_genPlay (ms ++ [m]) hw1 hb1 (by rw [hp1, ht1]; exact hpos) (by rw [hp1, ht1]; exact hgen)
+  exact game_link hz hw0 (posOK_of_wfplay hpos hc hk) turn n0 f fm hplay h
+
+/-- The initial position satisfies all start conditions. -/
+example : WFplay startPos .white ∧ startPos.castling < 16 ∧ kingCount startPos.square = 2 :=
+  ⟨startPos_wfplay, startPos_posOK.castling, startPos_posOK.kings⟩
+
+/-- `1. Nf3 Nf6 2. Ng1 Ng8`, twice, from the initial position: generated moves (checked by evaluation). -/
+theorem start_genPlay : GenPlay startPos .white (shuffle ++ shuffle) :=
+  genPlay_of_check _ _ _ (by decide +kernel)
+
+/-- `draw_iff_reachable` instantiated on the initial position: after those eight moves the board reports the
+verdict of the history — and, evaluated, that verdict is a draw by three-fold repetition (3 occurrences). -/
+example : ∀ w', pushAll exZ 0 (({} : World).newBoard exZ startPos .white 0 1).1 (shuffle ++ shuffle) = some w' →
+    DrawVerdict w' 0 ng8 ∧ GoodHistory exZ w' 0 := by
+  intro w' h
+  have hsplit : shuffle ++ shuffle = (shuffle ++ [nf3, nf6, ng1]) ++ [ng8] := by decide
+  have hgen := start_genPlay
+  rw [hsplit] at hgen h
+  have := draw_iff_reachable (z := exZ) rfl wf_empty startPos_wfplay (Int.le_refl 0) 1 hgen h
+  exact ⟨this.1, this.2.1⟩
+
+example :
+    (pushAll exZ 0 (({} : World).newBoard exZ startPos .white 0 1).1 (shuffle ++ shuffle)).map (fun w =>
+      ((w.board 0).result, occurrences w 0, (w.cur 0).noprogress)) =
+    some ({ outcome := .draw, reason := .repetition3 }, 3, 8) := by decide +kernel
+
+/-- `game_link_reachable` instantiated on the same game: the board's result is the reference's verdict on the
+game from the initial position. -/
+example : ∀ w', pushAll exZ 0 (({} : World).newBoard exZ startPos .white 0 1).1 (shuffle ++ shuffle) = some w' →
+    SpecVerdict (w'.board 0).result
+      (Spec.Game.drawReasons
+        { start := { pos := abs startPos .white, halfmove := 0, fullmove := 1 },
+          moves := (shuffle ++ shuffle).map absMove }) := by
+  intro w' h
+  have hsplit : shuffle ++ shuffle = (shuffle ++ [nf3, nf6, ng1]) ++ [ng8] := by decide
+  have hgen := start_genPlay
+  rw [hsplit] at hgen h ⊢
+  exact game_link_reachable (z := exZ) rfl wf_empty startPos_wfplay startPos_posOK.castling startPos_posOK.kings
+    0 1 1 hgen h
+
+end Reachable
 
 end Morlock.Props.C05
